@@ -181,6 +181,47 @@ def run_case(ctx: Ctx, case: dict) -> list[str]:
     return probs
 
 
+def reuse_probe(ctx: Ctx, rng) -> None:
+    """post-selection as configured at call time: one PostSelection object is used for sampling, gets a
+    further rule, and is used again (sample_N_inputs and sample_N_outputs)"""
+    for _ in range(ctx.n(6, 60)):
+        case = None
+        while case is None:
+            case = gen_case(ctx, rng)
+        pool = fg.build_impl(case["prog"])
+        c = pool["c1"]
+        im = c.input_modes
+        if im < 2 or sum(case["input"]) == 0:
+            continue
+        hout = c.heralds["output"]
+        smp = emulator.Sampler(c, lw.State(case["input"]))
+        ps = lw.PostSelection()
+        m0 = rng.randrange(im)
+        ps.add(m0, tuple(range(0, sum(case["input"]) + 1)))  # permissive first rule
+        try:
+            smp.sample_N_inputs(300, post_select=ps, seed=case["seed"])
+            smp.sample_N_outputs(300, post_select=ps, seed=case["seed"])
+        except Exception:  # noqa: BLE001
+            continue
+        m1 = rng.choice([m for m in range(im) if m != m0])
+        k = rng.choice([0, 1])
+        ps.add(m1, k)  # restrictive rule added AFTER the object has been used
+        rules = [[[m0], list(range(0, sum(case["input"]) + 1))], [[m1], [k]]]
+        ctx.case(("reuse", json.dumps(case)), True)
+        ctx.count("postselection_object_reused")
+        for name in ("sample_N_inputs", "sample_N_outputs"):
+            try:
+                res = getattr(smp, name)(300, post_select=ps, seed=case["seed"] + 1)
+            except Exception:  # noqa: BLE001  (no accepted output left: SamplerError is fine)
+                continue
+            for st in res:
+                if not rule_ok(rules, st.s):
+                    ctx.violation(f"oracle: {name} returned {st.s}, which fails the post-selection configured at call time "
+                                  f"(rule on mode {m1} was added to the PostSelection object after an earlier sampling call)",
+                                  {"case": case, "rules": rules, "method": name}, sig={"kind": "postselection-reuse"})
+                    return
+
+
 def stat_test(ctx: Ctx, rng) -> None:
     """frequencies of sample_N_inputs vs the exact detected/heralded/post-selected distribution"""
     from scipy.stats import chi2
@@ -268,6 +309,7 @@ def run(ctx: Ctx) -> None:
                 ctx.violation(p, {"case": case, "problems": probs}, sig=sig)
             else:
                 ctx.disagreement(p, {"case": case, "problems": probs})
+    reuse_probe(ctx, rng)
     stat_test(ctx, rng)
 
 
